@@ -271,6 +271,28 @@ def main():
                        "types differ between value_type.rs and the Lean model",
                 "types": [a, b], "model": ma, "implementation": ha, "model_request": "agree\t(agree %s %s)" % (a, b),
                 "harness_request": "agree\t%s\t%s" % (a, b)})
+    # the unification step itself (typer::do_update_symbol through the guarded hook verif_update_symbol) against Ty.update:
+    # all depth <= 1 pairs under the four combinations of "written by the programmer", the other pairs under a random one
+    nd01 = len(d01) * len(d01)
+    ureqs = []
+    for k, (a, b) in enumerate(pairs):
+        combos = [("0", "0"), ("0", "1"), ("1", "0"), ("1", "1")] if k < nd01 else [rng.pick([("0", "0"), ("0", "1"), ("1", "0"), ("1", "1")])]
+        for (sa, na) in combos:
+            ureqs.append((a, b, sa, na))
+    um = run_model(["update\t(update %s %s %s %s)" % q for q in ureqs])
+    uh = run_harness(["update\t%s\t%s\t%s\t%s" % q for q in ureqs])
+    for q, ma, ha in zip(ureqs, um, uh):
+        if ha == "illformed":
+            dist["update:illformed-skipped"] += 1
+            continue
+        total += 1
+        dist["update:" + ma] += 1
+        if ma == ha and ma in ("none", "old", "new"):
+            agreeing += 1
+        else:
+            rep.violation("update:%s:%s:%s%s" % q, {
+                "why": "typer::do_update_symbol (known type, new type, symbol authoritative, new authoritative) = %s, the Lean model Ty.update says %s" % (ha, ma),
+                "request": list(q), "model_request": "update\t(update %s %s %s %s)" % q, "harness_request": "update\t%s\t%s\t%s\t%s" % q})
     report_broken_proof(rep)
     rep.coverage.update({
         "evaluations": total, "distinct_nontrivial": total,
@@ -282,7 +304,8 @@ def main():
                 "unsigned negation, signed bitwise): the original must be accepted, the mutant rejected with a typing code; "
                 "the four public type-agreement relations of value_type.rs against the Lean model on all pairs of types to depth 1 "
                 "(157 x 157 over 14 leaves incl. structures, words, unresolved placeholders and 10 constructors), every depth-2 "
-                "type against its one-constructor variants, and random pairs to depth 4",
+                "type against its one-constructor variants, and random pairs to depth 4; the unification step typer::do_update_symbol "
+                "(hook verif_update_symbol) against Ty.update on the same pairs under the four authoritative-flag combinations",
         "exhaustive": True,
         "traces_validated_against_impl": agreeing, "distribution": dict(dist),
         "samples": [cells[0][2], cells[-1][2]],
